@@ -70,6 +70,12 @@ def translate(repo):
     if shape not in flat:
         raise TranslateError("TextFile::readLine(String&): the fgets loop no longer has the transcribed shape "
                              "(resize m+chunk; fgets(&s[m], chunk); NULL => fix(m), false; n = m + strlen; n > 0 and LF => strip LF then one CR; m = n)")
+    # ---- readLine(char)
+    rb = _flat(cparse.find_function(tf, r"String\s+TextFile::readLine\s*\(\s*char\s+newline\s*\)\s*\{"))
+    if rb != ("{Strings(1000,0);s[0]='\\0';if(!_file&&!open(READ))returns;while(1){charc;if(read(&c,1)<1)break;"
+              "if(c==newline)break;s<<c;}returns;}"):
+        raise TranslateError("TextFile::readLine(char) is no longer: open(READ) if not open; loop { read one byte, stop when the read fails; "
+                             "stop at the delimiter; append }")
     # ---- lines()
     body = _flat(cparse.find_function(tf, r"Array<String>\s+TextFile::lines\s*\(\s*\)\s*\{"))
     if body != ("{Array<String>lines;if(_file){flush();returnTextFile(_path).lines();}if(!open(READ))returnlines;"
@@ -709,7 +715,9 @@ def gen(rng, tier):
     # lines() after writing through the same object / after text() / twice; a reader then a lazily opening writer; File::copy and
     # File::move of an object with unflushed writes; a destination that accepts no byte (/dev/full)
     full_ok = _full_ok()
-    cases.append(["xdirlines"])
+    cases.append(["xdirlines", "xdirrlc"])
+    for n in (5, 5000):
+        cases.append(["xwrlc " + (hexs(b"ab\ncd") if n == 5 else btok(rng, n, nulfree=True))])
     for i in range(120 if quick else 2000):
         t, _ = gen_text(rng, 5)
         n = rng.choice([0, 1, 5, 100, 4095, 4096, 4097, 9000, 70000])
@@ -892,7 +900,10 @@ def gen_history(rng, xdev_ok):
         r = rng.random()
         n = rng.choice([0, 1, 2, 5, 17, 254, 255, 256, 600]) if rng.random() < 0.85 else rng.choice([4095, 4096, 4097, 8192, 65536, 70000])
         if in_sess == "w" and r < 0.6:
-            op = rng.choice(["w", "w", "sb", "ss", "sc", "si"])
+            op = rng.choice(["w", "w", "sb", "ss", "sc", "si", "rlc"])
+            if op == "rlc":
+                c.append("rlc %02x" % rng.choice([10, 13, 97]))     # readLine(char) through a writer: comes back empty-handed
+                continue
             if op == "si":
                 c.append("si %d" % rng.choice([0, 1, -1, 2147483647, -2147483648, rng.randrange(-10 ** 6, 10 ** 6)]))
             elif op == "sc":
